@@ -497,8 +497,8 @@ class Decimal:
         return "Decimal(<sym>)"
 
     def __getattr__(self, name):
-        if name.startswith("__") or name.startswith("_RP2") or name.startswith("_Decimal"):
-            raise AttributeError(name)
+        if name.startswith("__") or name.startswith("_RP2") or name.startswith("_Decimal") or not hasattr(_real.Decimal, name):
+            raise AttributeError(name)  # the real Decimal has no such attribute either
         raise Unsupported("Decimal.%s is not modelled by the substrate" % name)
 
 
